@@ -148,12 +148,10 @@ def r14b(ctx):
     takes = [t for t in a.calls('core::mem::take') if c16.is_field_of_self(a.arg(t, 0), 'deduplication_metrics')]
     if not ctx.check(len(takes) >= 1, 'R14b', fn, 'take(deduplication_metrics)', '-', 'finalize_impl takes the session metrics'):
         return
-    ttasks = [t for t in a.calls('core::mem::take') if c16.is_field_of_self(a.arg(t, 0), 'xorb_upload_tasks')]
-    joins = [j for j in a.calls('tokio::task::join_set::JoinSet::join_next') if ttasks and a.rooted_at(a.arg(j, 0), ttasks[0])]
-    none_edges = []
-    for j in joins:
-        ve = a.variant_edges(j, 'core::option::Option<')
-        none_edges += ve.get('0', []) + ve.get('otherwise', [])
+    # the edges of finalize_impl that are crossed exactly when every xorb upload task has been joined (inline loop or
+    # awaited helper, see rules_c16.drain_site)
+    dr, _n = c16.drain_site(ctx, a)
+    none_edges = dr.edges if dr is not None else []
     # which take flows to the returned value?
     oks = [(b, si, e) for (b, si, k, e) in a.ret_sites() if k != 'err']
     for tk in takes:
